@@ -197,7 +197,9 @@ def _case(draw):
     k2 = draw(st.sampled_from([x for x in range(1, 10) if x != k])) if other in ("k", "both") else k
     fs2 = draw(st.sampled_from([x for x in [FS_DEFAULT] + FS_OTHER if x != fs])) if other in ("fs", "both") else fs
     forms = FORMS_ANY + (FORMS_DEFAULT if k2 == 5 and fs2 == FS_DEFAULT else ())
-    dtype = draw(st.sampled_from(["f64", "f64", "f64", "f64", "f64", "f64", "f32", "f32", "f32", "i32"]))
+    # "i32s": integer counts of SMALL amplitude (odd peak of 21 .. 1001 counts): samples land exactly on (|peak| - 1) / 2 and
+    # (|peak| + 1) / 2, the two integers around half of the peak
+    dtype = draw(st.sampled_from(["f64", "f64", "f64", "f64", "f64", "f64", "f32", "f32", "f32", "i32", "i32s", "i32s"]))
     return {"T": T, "C": C, "k": k,
             "seed": draw(st.integers(0, 2 ** 32 - 1)), "f32": dtype == "f32",
             "scale_exp": draw(st.sampled_from([-6, -3, -1, 1, 2, 5])), "split": draw(st.integers(0, 30)),
@@ -365,12 +367,17 @@ def build_batch(case):
             w[0, :] *= 0.4375 * big / m0
         if dt == "i32":  # raw counts: about 1e6 at the peak, padded channels are flat
             w = np.rint(w / A * 1e6)
+        elif dt == "i32s":
+            w = np.rint(w / A * [21, 51, 101, 201, 1001][int(case["seed"]) % 5])
+            j = np.unravel_index(np.argmax(np.abs(w)), w.shape)
+            if w[j] % 2 == 0 and w[j] != 0:
+                w[j] += np.sign(w[j])       # an odd extremum: half of it is no integer, "within half" has no tie
         else:
             w[:, ~live] = np.nan
         W[i] = w
     if dt == "f32":
         W = W.astype(np.float32)
-    elif dt == "i32":
+    elif dt in ("i32", "i32s"):
         W = W.astype(np.int32)
     return W
 
@@ -695,7 +702,7 @@ def _run_big(case, ctx):
         return
     mu = len(usable)
     ti, ex, seams = _big_rows(N, mu, case["seed"])
-    if dt == "i32":
+    if dt in ("i32", "i32s"):
         ex = np.abs(ex)
     sc = 2.0 ** ex
     W = tw[np.asarray(usable)[ti]]
@@ -720,7 +727,7 @@ def _run_big(case, ctx):
                        ("no_post_crossing", np.isnan(E["post"])), ("no_pre_crossing", np.isnan(E["pre"]))):
         if bool(np.any(cond)):
             ctx.label(name)
-    if dt != "i32" and any(case["wavs"][j]["nan"] for j in usable):
+    if dt not in ("i32", "i32s") and any(case["wavs"][j]["nan"] for j in usable):
         ctx.label("nan_channel")
     # seam-relevant: the rows before, on and after the seams hold different waveforms with different expected features
     feat = np.stack([E["c"], E["p"], E["tr"], E["tip"], E["pv"]], axis=1)
@@ -862,7 +869,7 @@ def run_case(case, ctx):
         if r["skip"]:
             ctx.label("skip_" + r["skip"])
             continue
-        nanch = bool(case["wavs"][i]["nan"]) and dt != "i32"
+        nanch = bool(case["wavs"][i]["nan"]) and dt not in ("i32", "i32s")
         ctx.label("peak_pos" if r["pv"] > 0 else "peak_neg")
         if r["swapped"]:
             ctx.label("swap_pos" if r["pv"] > 0 else "swap_neg")
@@ -975,7 +982,7 @@ def run_case(case, ctx):
         return
 
     # ---- scaling by c = 2**e: values scale, indices and ratios do not
-    c = 2.0 ** (abs(case["scale_exp"]) if dt == "i32" else case["scale_exp"])
+    c = 2.0 ** (abs(case["scale_exp"]) if dt in ("i32", "i32s") else case["scale_exp"])
     Ws = W * W.dtype.type(c)
     gs = _features(ctx, "C14.scale", _Arg(Ws, law_layout), k, fs)
     if gs is not ctx.CRASH:
